@@ -15,6 +15,11 @@ Abstraction (cryptography and msgpack are NOT modelled here, they belong to C04/
 * `MemoryStore.Insert` files ONE `*lockedStoreData` under both keys: `Store.heap` holds the
   records, `Store.keys` maps a key to the address of its record, so an update through one key is
   seen through the other;
+* several services (`tp.TP` values with their own `Key`/`Location`) may share ONE store: every
+  request carries the service `v` it is addressed to; a ticket atom `id` is sealed under the key of
+  service `sealer id`; `opens v t` is `DischargeTicket` with `v`'s key.  The poll and user handlers
+  and `Discharge*` re-open the STORED ticket with the addressed service's key before anything else
+  is answered (`newFDOrError` / `newFD`); `Abort*` does not;
 * LRU eviction: any key may disappear at any time (`evict`); the LRU's recency order is not
   modelled (the correspondence feeds the evictions it observes).
 
@@ -48,6 +53,17 @@ inductive Ticket
   | good (id : Nat)
   | bad (id : Nat)
   deriving DecidableEq, Repr, Inhabited
+
+/-- Several discharge services (`tp.TP` values with their own `Key` and `Location`) may share one
+`Store`.  Services are named by naturals; ticket atoms are partitioned by the service whose key
+seals them: the atom `id` is sealed under the key of service `sealer id` (services 0 and 1; a
+ticket no service of the deployment opens is `bad`). -/
+def sealer (id : Nat) : Nat := id % 2
+
+/-- `macaroon.DischargeTicket(tp.Key, tp.Location, t)` at service `v`: the ticket atom if `v`'s key opens it -/
+def opens (v : Nat) : Ticket → Option Nat
+  | .good id => if sealer id = v then some id else none
+  | .bad _ => none
 
 structure Discharge where
   ticket : Nat
@@ -168,17 +184,17 @@ inductive Decision
   deriving DecidableEq, Repr, Inhabited
 
 inductive Action
-  | init (t : Ticket) (m : Mode)       -- POST InitPath through InitRequestMiddleware
-  | poll (s : Secret)                  -- GET PollPathPrefix/s: HandlePollRequest
-  | userVisit (s : Secret)             -- GET /user/s through UserRequestMiddleware
-  | decide (r : Role) (s : Secret) (d : Decision)
+  | init (v : Nat) (t : Ticket) (m : Mode)   -- POST InitPath through service v's InitRequestMiddleware
+  | poll (v : Nat) (s : Secret)        -- GET PollPathPrefix/s: service v's HandlePollRequest
+  | userVisit (v : Nat) (s : Secret)   -- GET /user/s through service v's UserRequestMiddleware
+  | decide (v : Nat) (r : Role) (s : Secret) (d : Decision)   -- service v's Discharge*/Abort*
   | evict (k : Key)                    -- environment: the LRU drops a key
   deriving DecidableEq, Repr, Inhabited
 
-abbrev Action.approvePoll (s : Secret) (cs : List Nat) : Action := .decide .poll s (.approve cs)
-abbrev Action.approveUser (s : Secret) (cs : List Nat) : Action := .decide .user s (.approve cs)
-abbrev Action.abortPoll (s : Secret) (msg : Nat) : Action := .decide .poll s (.abort msg)
-abbrev Action.abortUser (s : Secret) (msg : Nat) : Action := .decide .user s (.abort msg)
+abbrev Action.approvePoll (v : Nat) (s : Secret) (cs : List Nat) : Action := .decide v .poll s (.approve cs)
+abbrev Action.approveUser (v : Nat) (s : Secret) (cs : List Nat) : Action := .decide v .user s (.approve cs)
+abbrev Action.abortPoll (v : Nat) (s : Secret) (msg : Nat) : Action := .decide v .poll s (.abort msg)
+abbrev Action.abortUser (v : Nat) (s : Secret) (msg : Nat) : Action := .decide v .user s (.abort msg)
 
 inductive Out
   | http (status : Nat) (body : Body) (app : Bool)   -- app: an application handler ran
@@ -196,10 +212,18 @@ def Out.appInvoked : Out → Bool
 
 /-- the key an action presents to the store -/
 def Action.key? : Action → Option Key
-  | .poll s => some (pollKey s)
-  | .userVisit s => some (userKey s)
-  | .decide r s _ => some ⟨r, s⟩
+  | .poll _ s => some (pollKey s)
+  | .userVisit _ s => some (userKey s)
+  | .decide _ r s _ => some ⟨r, s⟩
   | _ => none
+
+/-- the service a request is addressed to -/
+def Action.svc? : Action → Option Nat
+  | .init v _ _ => some v
+  | .poll v _ => some v
+  | .userVisit v _ => some v
+  | .decide v _ _ _ => some v
+  | .evict _ => none
 
 def outNotFound : Out := .http 404 .notFound false
 def outInternal : Out := .http 500 .internal false
@@ -207,7 +231,7 @@ def outNotReady : Out := .http 202 .notReady false
 
 /-- what a handler answers when the store does not know the presented key -/
 def Action.notFoundOut : Action → Out
-  | .decide _ _ _ => .api false
+  | .decide _ _ _ _ => .api false
   | _ => outNotFound
 
 /-- the poll handler writes the stored status and body -/
@@ -215,14 +239,14 @@ def deliver (r : Resp) : Out := .http r.status r.body false
 
 /-- `dischargePoller` / `abortPoller` between their `Get` and their `Update`: the new data built
 from the COPY `sd`; `none` = `newFD` fails on the stored ticket, or `Add` refuses the caveats -/
-def decideData (sd : Data) : Decision → Option Data
+def decideData (v : Nat) (sd : Data) : Decision → Option Data
   | .approve cs =>
-    match sd.ticket with
-    | .good tid =>
+    match opens v sd.ticket with                      -- dischargePoller: newFD with THIS service's key
+    | some tid =>
       if refuses cs then none                         -- `fd.discharge.Add(caveats...)` fails: return err
       else some { sd with resp := some ⟨200, .discharge (mkDischarge tid cs)⟩ }
-    | .bad _ => none
-  | .abort msg => some { sd with resp := some ⟨200, .error msg⟩ }
+    | none => none
+  | .abort msg => some { sd with resp := some ⟨200, .error msg⟩ }   -- abortPoller never opens the ticket
 
 /-- the application's init handler on an opened ticket -/
 def initGood (st : Store) (t : Ticket) (tid : Nat) : Mode → Store × Out
@@ -241,35 +265,35 @@ def initGood (st : Store) (t : Ticket) (tid : Nat) : Mode → Store × Out
 /-! ### handler-level semantics: one whole handler per step -/
 
 def step (st : Store) : Action → Store × Out
-  | .init t m =>
-    match t with
-    | .bad _ => (st, outInternal)                       -- newFDOrError: before the application runs
-    | .good tid => initGood st t tid m
-  | .poll s =>
+  | .init v t m =>
+    match opens v t with
+    | none => (st, outInternal)                         -- newFDOrError: before the application runs
+    | some tid => initGood st t tid m
+  | .poll v s =>
     match st.get (pollKey s) with
     | none => (st, outNotFound)
     | some sd =>
-      match sd.ticket with
-      | .bad _ => (st, outInternal)
-      | .good _ =>
+      match opens v sd.ticket with                      -- newFDOrError on the STORED ticket, before anything is answered
+      | none => (st, outInternal)
+      | some _ =>
         match sd.resp with
         | none => (st, outNotReady)
         | some r =>
           match st.delete (pollKey s) with
           | none => (st, outInternal)
           | some st' => (st', deliver r)
-  | .userVisit s =>
+  | .userVisit v s =>
     match st.get (userKey s) with
     | none => (st, outNotFound)
     | some sd =>
-      match sd.ticket with
-      | .bad _ => (st, outInternal)
-      | .good _ => (st, .http 200 .page true)
-  | .decide r s d =>
+      match opens v sd.ticket with
+      | none => (st, outInternal)
+      | some _ => (st, .http 200 .page true)
+  | .decide v r s d =>
     match st.get ⟨r, s⟩ with
     | none => (st, .api false)
     | some sd =>
-      match decideData sd d with
+      match decideData v sd d with
       | none => (st, .api false)
       | some nd =>
         match st.update ⟨r, s⟩ nd with
@@ -313,10 +337,10 @@ inductive OpEv
 def micro (st : Store) (act : Action) : PC → Store × PC × List OpEv
   | .start =>
     match act with
-    | .init t m =>
-      match t with
-      | .bad _ => (st, .done outInternal, [])
-      | .good tid =>
+    | .init v t m =>
+      match opens v t with
+      | none => (st, .done outInternal, [])
+      | some tid =>
         match m with
         | .poll =>
           let (st', us, ps) := st.insert ⟨t, none⟩
@@ -325,31 +349,31 @@ def micro (st : Store) (act : Action) : PC → Store × PC × List OpEv
           let (st', us, ps) := st.insert ⟨t, none⟩
           (st', .done (.http 201 (.userUrls ps us) true), [.inserted t us ps])
         | m => (st, .done (initGood st t tid m).2, [])
-    | .poll s =>
+    | .poll v s =>
       let res := st.get (pollKey s)
       match res with
       | none => (st, .done outNotFound, [.got (pollKey s) res])
       | some sd =>
-        match sd.ticket with
-        | .bad _ => (st, .done outInternal, [.got (pollKey s) res])
-        | .good _ =>
+        match opens v sd.ticket with
+        | none => (st, .done outInternal, [.got (pollKey s) res])
+        | some _ =>
           match sd.resp with
           | none => (st, .done outNotReady, [.got (pollKey s) res])
           | some r => (st, .pollDelete s r, [.got (pollKey s) res])
-    | .userVisit s =>
+    | .userVisit v s =>
       let res := st.get (userKey s)
       match res with
       | none => (st, .done outNotFound, [.got (userKey s) res])
       | some sd =>
-        match sd.ticket with
-        | .bad _ => (st, .done outInternal, [.got (userKey s) res])
-        | .good _ => (st, .done (.http 200 .page true), [.got (userKey s) res])
-    | .decide r s d =>
+        match opens v sd.ticket with
+        | none => (st, .done outInternal, [.got (userKey s) res])
+        | some _ => (st, .done (.http 200 .page true), [.got (userKey s) res])
+    | .decide v r s d =>
       let res := st.get ⟨r, s⟩
       match res with
       | none => (st, .done (.api false), [.got ⟨r, s⟩ res])
       | some sd =>
-        match decideData sd d with
+        match decideData v sd d with
         | none => (st, .done (.api false), [.got ⟨r, s⟩ res])
         | some nd => (st, .update ⟨r, s⟩ nd, [.got ⟨r, s⟩ res])
     | .evict _ => (st, .done .silent, [])
@@ -422,9 +446,9 @@ def seqSched (n : Nat) : List Action → List Sched
 /-- two polls on the same secret after an approval: both `Get`, both pass the `Cache.Get` of
 `DeleteByPollSecret`, both `Remove`, both deliver -/
 def racingPolls : List Sched :=
-  [.spawn (.init (.good 7) .poll), .step 0,
-   .spawn (.approvePoll 1 [3]), .step 1, .step 1,
-   .spawn (.poll 1), .spawn (.poll 1),
+  [.spawn (.init 1 (.good 7) .poll), .step 0,
+   .spawn (.approvePoll 1 1 [3]), .step 1, .step 1,
+   .spawn (.poll 1 1), .spawn (.poll 1 1),
    .step 2, .step 3, .step 2, .step 3, .step 2, .step 3]
 
 end Macaroon.TP
